@@ -222,7 +222,18 @@ impl Prop for C12 {
                 let n = r.range(1, 4);
                 (0..n).map(|_| gen_item(&mut r)).collect()
             };
+            // keep the number of expansions (product of the O-groups' factorials) small: the parser
+            // materialises every permutation (documented memory blow-up), which is not what is
+            // being checked here
+            let fact = |n: usize| -> u64 { (1..=n as u64).product() };
+            let expansions: u64 = s.iter().map(|it| if let Item::Overlap(ks) = it { fact(ks.len()) } else { 1 }).product();
+            if expansions > 720 {
+                continue;
+            }
             seqs.push(s);
+        }
+        if seqs.is_empty() {
+            seqs.push(vec![Item::Plain(letters[0].clone())]);
         }
         let t = *r.pick(&[10u64, 25, 100]);
         let mode = *r.pick(&["hidden-suppressed", "hidden-delay-type", "visible-backspaced"]);
